@@ -96,6 +96,12 @@ T = {
  'C19-m2': ('C19', '--ignore-new-thread patterns compiled with filter.build_filtering_func (re.search, "!" negation) instead of re.match',
             'a leaked thread whose name contains an ignore pattern without starting with it (net-ign, xign)',
             'C19 quick: C19:missed', 'caught at once; patch.diff is rebased onto fix 12a8a7f (same lines), patch.orig.diff is the agent\'s patch against fae7978'),
+ 'C11-m1': ('C11', 'find.find_tests: a process started with --resume-layer X skips tests of other layers while collecting (looks like an optimisation; Shuffle runs between Find and Filter)',
+            '--shuffle-seed S, >= 2 layers, a layer that is not first in sorted-name order with >= 2 tests, run in a child (-j N or resume)',
+            'C11 quick: C11:mode-differs|j (and |resume)', 'caught at once'),
+ 'C11-m2': ('C11', 'Shuffle.seed becomes an uncached property: report() reads the clock a second time, the printed seed is not the one used',
+            '--shuffle without --shuffle-seed, then a re-run / --list-tests with the reported seed',
+            'C11 quick: C11:seed-not-reproducing|rerun-of-noseed', 'caught at once; patch.diff is rebased onto fix 2214b10 (same lines), patch.orig.diff is the agent\'s patch against fae7978'),
 }
 
 
